@@ -148,3 +148,38 @@ Example C18_nonvacuous :
   D_minimize (MStr "ADAM") = Ran "minimizer" "adam" /\
   D_ivp (MStr "rk5") = ErrUnknown /\ D_quad MOther = ErrType.
 Proof. vm_compute. repeat split; reflexivity. Qed.
+
+(* ---- xitorch/_utils/misc.py as translated from /repo on this run (Gen/PyMisc.v) ---- *)
+From Coq Require Import ZArith.
+From XV Require Import Base.PyLib Proofs.PyMiscProofs.
+From XV Require Gen.PyMisc.
+
+(* the translated get_method refines the dispatch model on which the theorems above are stated *)
+Theorem C18_translated_get_method_is_model : forall alg fam t m,
+  PyMisc.get_method alg (tbl_obj t) (meth_obj m) = outcome_res (Dispatch.get_method fam t m).
+Proof. exact get_method_refines. Qed.
+Print Assumptions C18_translated_get_method_is_model.
+
+(* ... and directly: a returned value is the table entry of the lower-cased name or the caller's callable itself *)
+Theorem C18_translated_get_method_never_silent_default : forall alg tbl m r,
+  PyMisc.get_method alg tbl m = Ok r ->
+  (exists s, m = OStr s /\ d_find String.eqb tbl (str_lower s) = Some r) \/ (exists i, m = OCall i /\ r = m).
+Proof. exact gen_get_method_never_silent_default. Qed.
+Print Assumptions C18_translated_get_method_never_silent_default.
+
+Theorem C18_translated_set_default_option_is_model : forall f defopt opt,
+  PyMisc.set_default_option (vals_obj f defopt) (vals_obj f opt) =
+  Ok (vals_obj f (Dispatch.set_default_option defopt opt)).
+Proof. exact set_default_option_refines. Qed.
+Print Assumptions C18_translated_set_default_option_is_model.
+
+(* get_and_pop_keys hands over exactly the requested entries AND removes them from the dictionary that is forwarded to
+   the solver (the backward-options contract); a missing key raises *)
+Theorem C18_translated_get_and_pop_keys : forall dct keys res1 dct1,
+  NoDup (map fst dct) -> NoDup keys ->
+  PyMisc.get_and_pop_keys dct keys = Ok (res1, dct1) ->
+  (forall k, In k keys -> d_find String.eqb res1 k = d_find String.eqb dct k /\ d_find String.eqb dct k <> None /\
+                          d_find String.eqb dct1 k = None) /\
+  (forall k, ~ In k keys -> d_find String.eqb res1 k = None /\ d_find String.eqb dct1 k = d_find String.eqb dct k).
+Proof. exact gen_get_and_pop_keys_spec. Qed.
+Print Assumptions C18_translated_get_and_pop_keys.
